@@ -279,6 +279,11 @@ def run_unit(unit, workdir, tier):
     os.makedirs(gen_dir, exist_ok=True)
     shutil.copy(p, os.path.join(gen_dir, unit + '.rs'))
     rlimit = 60 if tier == 'thorough' else 30
+    try:
+        with open(os.path.join(udir, 'unit.json')) as f:
+            rlimit = max(rlimit, json.load(f).get('rlimit', 0))
+    except (OSError, ValueError):
+        pass
     with cf.ThreadPoolExecutor(2) as ex:
         f1 = ex.submit(run_verus, p, workdir, rlimit)
         f2 = ex.submit(run_verus, pr, workdir, rlimit)
